@@ -184,6 +184,17 @@ def ctable(s):
     return "[" + ";".join(TRI[c] for c in s) + "]"
 
 
+_TD = {"T": 1, "F": 2, "U": 3}
+
+
+def ccode(s):
+    """a truth table as one number: base 4, digits T=1 F=2 U=3, first entry least significant (Model/PredCheckFast.v tri_code)"""
+    code = 0
+    for c in reversed(s):
+        code = code * 4 + _TD[c]
+    return f"{code}%N"
+
+
 def ccnf(ops):
     return clist(clist(f"{'Pos' if pos else 'Neg'} {a}%N" for a, pos in g) for g in ops)
 
@@ -387,6 +398,8 @@ class State:
         self.step_cases, self.step_meta = [], []
         self.nf_cases, self.nf_meta = [], []
         self.visit_cases, self.visit_meta = [], []
+        # the same cases with the observed table as one number (Model/PredCheckFast.v), index-aligned with *_cases
+        self.form_fast, self.step_fast, self.nf_fast, self.visit_fast = [], [], [], []
 
 
 def check_pred(ctx: Ctx, st: State, n: int, f, o, coq=True):
@@ -427,7 +440,9 @@ def check_pred(ctx: Ctx, st: State, n: int, f, o, coq=True):
             lit = cform(f, iter(flags))
         except StopIteration:
             lit, unknown = cform(f, iter([[False]] * 64)), True
-        st.form_cases.append(f"(({n}%nat, {lit}, {ctable(o['tv'])}, {('(Some ' + ccnf(o['ops']) + ')') if small and not unknown else 'None'}) : pcase)")
+        shp = ('(Some ' + ccnf(o['ops']) + ')') if small and not unknown else 'None'
+        st.form_cases.append(f"(({n}%nat, {lit}, {ctable(o['tv'])}, {shp}) : pcase)")
+        st.form_fast.append(f"(({n}%nat, {lit}, {ccode(o['tv'])}, {shp}) : pcase2)")
         st.form_meta.append(rep)
     for s in o.get("steps") or []:
         if sum(len(g) for g in s["res"]) > 150 or sum(sum(len(g) for g in a) for a in [s["self"]] + s["args"]) > 150:
@@ -437,7 +452,9 @@ def check_pred(ctx: Ctx, st: State, n: int, f, o, coq=True):
         if s["op"] == "or":
             fl = [False] * len(s["args"])
         args = clist(f"({cbool(x)}, {ccnf(a)})" for x, a in zip(fl or [False] * len(s["args"]), s["args"]))
-        st.step_cases.append(f"(({n}%nat, {op}%N, {ccnf(s['self'])}, {args}, {ctable(s['tv'])}, {('(Some ' + ccnf(s['res']) + ')') if fl is not None else 'None'}) : scase)")
+        shp = ('(Some ' + ccnf(s['res']) + ')') if fl is not None else 'None'
+        st.step_cases.append(f"(({n}%nat, {op}%N, {ccnf(s['self'])}, {args}, {ctable(s['tv'])}, {shp}) : scase)")
+        st.step_fast.append(f"(({n}%nat, {op}%N, {ccnf(s['self'])}, {args}, {ccode(s['tv'])}, {shp}) : scase2)")
         st.step_meta.append({"system": "pred-step", "n": n, "op": s["op"], "self": s["self"], "args": s["args"], "flags": fl,
                              "shape_ok": fl is not None})
         ctx.hist("pred_step", f"{s['op']}/{len(s['args'])}")
@@ -475,8 +492,9 @@ def check_nf(ctx: Ctx, st: State, n: int, c, o, coq=True):
                         "result of normalisation is not in the requested normal form")
     if not coq or o["leaves"] > 200:
         return
-    st.nf_cases.append(f"(({n}%nat, {cbool(cnf)}, {cltree(o['input'])}, {ctable(o['tt'])}, "
-                       f"{clist(clist(cltree(x) for x in g) for g in o['nodes'])}, {cltree(o['tree'])}) : ncase)")
+    tail = f"{clist(clist(cltree(x) for x in g) for g in o['nodes'])}, {cltree(o['tree'])}"
+    st.nf_cases.append(f"(({n}%nat, {cbool(cnf)}, {cltree(o['input'])}, {ctable(o['tt'])}, {tail}) : ncase)")
+    st.nf_fast.append(f"(({n}%nat, {cbool(cnf)}, {cltree(o['input'])}, {ccode(o['tt'])}, {tail}) : ncase2)")
     st.nf_meta.append(rep)
 
 
@@ -522,6 +540,7 @@ def check_visit(ctx: Ctx, st: State, n: int, c, o, coq=True):
         return
     subl = clist(f"({a}%N, {ccnf(ops)})" for a, ops in sorted(o["sub_ops"].items(), key=lambda kv: int(kv[0])))
     st.visit_cases.append(f"(({n}%nat, {ccnf(o['ops'])}, {subl}, {cbool(o['none'])}, {ctable(o['tv'])}) : vcase)")
+    st.visit_fast.append(f"(({n}%nat, {ccnf(o['ops'])}, {subl}, {cbool(o['none'])}, {ccode(o['tv'])}) : vcase2)")
     st.visit_meta.append(rep)
 
 
@@ -563,13 +582,17 @@ HDR = ("From Coq Require Import NArith List Bool.\nFrom V Require Import Base.Tr
 HDRG = HDR + "From V Require Import Gen.PredGen Model.PredCheckGen.\n"
 HDRN = HDR + "From V Require Import Gen.NormalFormGen Model.NormalFormCheckGen.\n"
 HDRV = HDR + "From V Require Import Gen.PredGen Gen.PredVisitGen Model.PredVisitCheck.\n"
+HDRF = HDR + "From V Require Import Gen.PredGen Gen.NormalFormGen Gen.PredVisitGen Model.PredCheckFast.\n"
 
 
-def coq_side(ctx: Ctx, st: State, gen_ok: bool, gen_nf_ok: bool = False, gen_pv_ok: bool = False):
+def coq_side(ctx: Ctx, st: State, gen_ok: bool, gen_nf_ok: bool = False, gen_pv_ok: bool = False, fast_ok: bool | None = None):
     """One vm_compute pass per case list with the conjunction of all checkers; only the cases it rejects are
     re-evaluated with the individual checkers to tell a broken tie (truth tables differ) from structural drift."""
     G = "_gen" if gen_ok else ""
     hdr = HDRG if gen_ok else HDR
+    fast = (gen_ok and gen_nf_ok and gen_pv_ok) if fast_ok is None else (fast_ok and gen_ok and gen_nf_ok and gen_pv_ok)
+    fasts = {"form": (st.form_fast, "chk_form_fast"), "step": (st.step_fast, "chk_step_fast"),
+             "nf": (st.nf_fast, "chk_nf_fast"), "visit": (st.visit_fast, "chk_visit_fast")}
     for name, cases, meta, allchk, tables, shapes_, hdr in (
         ("form", st.form_cases, st.form_meta, "chk_form_gen_only" if gen_ok else "chk_form_all", ["chk_form_table"] + (["chk_form_table_gen"] if gen_ok else []),
          ["chk_form_shape"] + (["chk_form_shape_gen"] if gen_ok else []), hdr),
@@ -581,7 +604,12 @@ def coq_side(ctx: Ctx, st: State, gen_ok: bool, gen_nf_ok: bool = False, gen_pv_
     ):
         if not cases:
             continue
-        bad = ctx.coq_cases(name, hdr, cases, allchk, shard=700)
+        if fast and len(fasts[name][0]) == len(cases):
+            # regenerated models, observed tables passed as numbers; rejected cases are classified below (list-based checkers)
+            allchk = fasts[name][1]
+            bad = ctx.coq_cases(name, HDRF, fasts[name][0], allchk, shard=700)
+        else:
+            bad = ctx.coq_cases(name, hdr, cases, allchk, shard=700)
         if not bad:
             if bad is not None:
                 ctx.cov["ties"][f"K:{name}"] = f"ok: {len(cases)} cases, truth tables and exact structure agree ({allchk})"
@@ -641,7 +669,8 @@ def regen_all(ctx: Ctx):
 
 def check_targets(gen_ok, gen_nf_ok, gen_pv_ok):
     return (["Model/PredCheck.vo"] + (["Model/PredCheckGen.vo"] if gen_ok else [])
-            + (["Model/NormalFormCheckGen.vo"] if gen_nf_ok else []) + (["Model/PredVisitCheck.vo"] if gen_ok and gen_pv_ok else []))
+            + (["Model/NormalFormCheckGen.vo"] if gen_nf_ok else []) + (["Model/PredVisitCheck.vo"] if gen_ok and gen_pv_ok else [])
+            + (["Model/PredCheckFast.vo"] if gen_ok and gen_nf_ok and gen_pv_ok else []))
 
 
 def run(ctx: Ctx):
@@ -677,6 +706,9 @@ def run(ctx: Ctx):
         if gen_pv_ok:
             ok, _ = coq_make(["Model/PredVisitCheck.vo"])
             gen_pv_ok = gen_pv_ok and ok
+    fast_ok = gen_ok and gen_nf_ok and gen_pv_ok
+    if fast_ok and not props_ok:
+        fast_ok, _ = coq_make(["Model/PredCheckFast.vo"])
 
     st = State()
     run_corpus(ctx, st)
@@ -693,7 +725,7 @@ def run(ctx: Ctx):
         if c:
             k = len(c) // 2
             ctx.sample({"case": m[k], "coq_case": c[k][:600]})
-    coq_side(ctx, st, gen_ok, gen_nf_ok, gen_pv_ok and gen_ok)
+    coq_side(ctx, st, gen_ok, gen_nf_ok, gen_pv_ok and gen_ok, fast_ok)
 
     if ctx.broken and not ctx.oracle_failures:
         search(ctx)
